@@ -354,9 +354,13 @@ class Executor:
     # loops with supplied invariants
     def loop(self, node, state, kind):
         ctx = self.ctx
+        arange = None
         if kind == 'for':
             if not (isinstance(node.iter, ast.Call) and isinstance(node.iter.func, ast.Name) and node.iter.func.id == 'range'):
-                raise Unsupported('for loop over %s at line %d' % (ast.unparse(node.iter), node.lineno))
+                itv = self.ev(node.iter, state) if isinstance(node.iter, ast.Name) else None
+                arange = getattr(itv, 'arange', None) if isinstance(itv, SArr) else None
+                if arange is None:
+                    raise Unsupported('for loop over %s at line %d' % (ast.unparse(node.iter), node.lineno))
             if not isinstance(node.target, ast.Name):
                 raise Unsupported('for target at line %d' % node.lineno)
             key = '%s in %s' % (node.target.id, ast.unparse(node.iter))
@@ -380,15 +384,21 @@ class Executor:
         inv0 = inv
         inv = lambda V, i, k, inv0=inv0, entry=entry: inv0(_with_entry(V, entry), i, k)  # noqa
         if kind == 'for':
-            args = [self.ev(a, state) for a in node.iter.args]
-            lo, hi, step = (0, args[0], 1) if len(args) == 1 else (args[0], args[1], 1) if len(args) == 2 else tuple(args)
+            if arange is not None:
+                lo, hi, step = arange
+            else:
+                args = [self.ev(a, state) for a in node.iter.args]
+                lo, hi, step = (0, args[0], 1) if len(args) == 1 else (args[0], args[1], 1) if len(args) == 2 else tuple(args)
             step = as_conc(step)
-            if step not in (1, -1):
+            if step is None or step == 0 or step < -1:
                 raise Unsupported('range step at line %d' % node.lineno)
             lo, hi = zi(lo), zi(hi)
             var = node.target.id
-            # number of iterations n = max(0, (hi-lo)*step); k-th iteration has i = lo + k*step
-            n = z3.If(step * (hi - lo) > 0, step * (hi - lo), z3.IntVal(0))
+            # number of iterations: k-th iteration has i = lo + k*step
+            if step in (1, -1):
+                n = z3.If(step * (hi - lo) > 0, step * (hi - lo), z3.IntVal(0))
+            else:
+                n = z3.If(hi > lo, (hi - lo + (step - 1)) / step, z3.IntVal(0))
             # 1. initiation: invariant at k = 0
             s0 = state
             s0.env[var] = lo
@@ -800,6 +810,8 @@ class Executor:
                 return ('type', 'np.' + a)
             if obj.name == 'np' and a == 'linalg':
                 return SModule('np.linalg')
+            if obj.name == 'sp' and a == 'linalg':
+                return SModule('sp.linalg')
             return ('modfunc', obj.name, a)
         if isinstance(obj, SArr):
             if a == 'shape':
@@ -1053,6 +1065,13 @@ class Executor:
 
     def binop(self, op, a, b, state, line):
         ints = lambda x: is_conc_int(x) or isinstance(x, z3.ArithRef)  # noqa
+        if isinstance(a, SOpt) or isinstance(b, SOpt):
+            # arithmetic on an element of a list created as [None] * n: the element must have been set
+            for x in (a, b):
+                if isinstance(x, SOpt):
+                    self.ctx.oblige(state, 'not-None', line, x.defined, 'arithmetic on an Optional value')
+            a = a.val if isinstance(a, SOpt) else a
+            b = b.val if isinstance(b, SOpt) else b
         if ints(a) and ints(b):
             if isinstance(op, ast.Add):
                 return a + b
